@@ -925,6 +925,10 @@ namespace ip {
 			case aux::packet::type_t::error:
 			case aux::packet::type_t::payload:
 			{
+				// no connection (any more): end-of-file was read, or the
+				// connect was cancelled. The packet vanishes
+				if (!m_channel) return;
+
 				aux::packet ack;
 				ack.type = aux::packet::type_t::ack;
 				ack.seq_nr = p.seq_nr;
